@@ -268,7 +268,27 @@ func startCeremony(n, t, nv int, seed uint64) *ceremony {
 
 // waitFor polls cond (under the pool lock) until it holds, an event timeout or a node failure.
 func (c *ceremony) waitFor(cond func() bool, d time.Duration) bool {
-	deadline := time.After(d)
+	// the budget counts only time in which this process was running: an interval in which a 20 ms nap took
+	// more than 2 s (frozen or starved machine) is given back, and the budget is generous (x4)
+	budget := 4 * d
+	deadline := make(chan struct{})
+	done := make(chan struct{})
+	defer close(done)
+	go func() {
+		var spent time.Duration
+		for spent < budget {
+			t0 := time.Now()
+			select {
+			case <-done:
+				return
+			case <-time.After(20 * time.Millisecond):
+			}
+			if dt := time.Since(t0); dt < 2*time.Second {
+				spent += dt
+			}
+		}
+		close(deadline)
+	}()
 	for {
 		c.pool.mu.Lock()
 		ok := cond()
